@@ -26,7 +26,7 @@ abbrev Str := List Char
 open Lean in
 /-- `cs!"abc"` is the character list `['a', 'b', 'c']`, built at elaboration time (no `String`
     function is left in the term, so definitions reduce under `decide`) -/
-macro "cs!" s:str : term => do
+macro:max "cs!" s:str : term => do
   let elems := s.getString.toList.map fun c => (Syntax.mkCharLit c : TSyntax `term)
   `([$(elems.toArray),*])
 
@@ -600,6 +600,12 @@ def bodyOf (fmt : Int → Str) (k : Kind) (cds : Dataset) : Body :=
     | .ok t => .complete (ddsText cds ++ dashes ++ t)
     | .error e => .raises e
   | .other => .complete []
+
+/-- `parse_ce` followed by `BaseHandler.parse`: the one constrained dataset of a request -/
+def constrained (ds : Dataset) (query : Str) : Except Exc Dataset :=
+  match parseCE query with
+  | .error e => .error e
+  | .ok ce => constrain ds ce.1 ce.2
 
 /-- the guarded region of `__call__` (after the `fix:` that moved the path split and `parse_ce`
     into it): split the path, drop the query for `das`, parse the CE, build the constrained
